@@ -3,3 +3,5 @@ open Dashu.Props.C18Kernels
 #print axioms descent_div_rem_is_proved_kernel
 #print axioms reduce_gcd_is_proved_kernel
 #print axioms reduce_over_proved_gcd
+#print axioms descent_over_proved_kernels
+#print axioms kernel_descent_optimal
